@@ -173,3 +173,47 @@ func VP_C93() {
 	}
 	vpAssert(bc.At(width-1, 0) == scheme.Foreground, "termination bar")
 }
+
+
+// C15 / C16: purity (deterministic, history-free, no package-level writes)
+func VP_PURE() {
+	n := vpConfig("n")
+	content := vpString("c", n)
+	for i := 0; i < n; i++ {
+		vpAssume(content[i] >= 'A' && content[i] <= 'Z')
+	}
+	vpTrackGlobals()
+	a, errA := Encode(content, true, false)
+	_, _ = Encode("OTHER-93", true, true)
+	b, errB := Encode(content, true, false)
+	vpAssert((errA == nil) == (errB == nil), "the same call succeeds or fails the same way every time ")
+	if errA == nil && errB == nil {
+		vpAssert(a.Bounds() == b.Bounds() && a.Content() == b.Content(), "the same call returns the same barcode whatever was encoded before")
+		if a.Bounds() == b.Bounds() {
+			for x := 0; x < a.Bounds().Dx(); x++ {
+				vpAssert(a.At(x, 0) == b.At(x, 0), "the same call returns the same pixels whatever was encoded before")
+			}
+		}
+	}
+	vpAssert(vpGlobalWrites() == 0, "no package-level state is written")
+	vpCover("reached", true)
+}
+
+
+// C15: the check character search ranges over a map; its result must not depend on the iteration order
+func VP_C93_maporder() {
+	n := vpConfig("n")
+	content := vpString("c", n)
+	for i := 0; i < n; i++ {
+		vpAssume(content[i] < 128 && vpValue93(int(content[i])) >= 0)
+	}
+	for _, w := range []int{20, 15} {
+		vpMapOrder(false)
+		a := getChecksum(content, w)
+		vpMapOrder(true)
+		b := getChecksum(content, w)
+		vpMapOrder(false)
+		vpAssert(a == b, "the check character does not depend on the order in which the table is iterated")
+	}
+	vpCover("reached", true)
+}
